@@ -1,4 +1,6 @@
 import Yuiv.Model.C07
+import Yuiv.Model.C07Trans
+import Yuiv.Model.C07Calc
 import Yuiv.Drv.Loop
 /-
 Driver for C07.  Request lines (all numbers decimal, matrices as `r c e11 e12 … erc`, row-major):
@@ -36,6 +38,24 @@ def ownText (p : Nat) (d1 d2 : Mat) : String :=
   | some (r, t) => s!"rank={r} tors={torsText t}"
   | none => "rank=? tors=?"
 
+/-- run the code model `calculate` (with `snfOwn`) on the same input; its answer must pass the verified checker and
+agree with the independent rank/torsion.  Empty text = all fine (nothing is added to the reply). -/
+def modelText (d1 d2 : Mat) : String :=
+  match calculate snfOwn d1 d2 true, calculate snfOwn d1 d2 false with
+  | .ok (rank, tors, some t), .ok (rank', tors', none) =>
+    match t.forwardMat, t.backwardMat with
+    | .ok P, .ok Q =>
+      let v := check ⟨0, d1, d2, rank, tors.toArray, P, Q⟩
+      let own := homologyOf 0 d1 d2
+      if v != .ok then s!" model-chk={v.text}"
+      else if own != some (rank, tors) then s!" model-rank={rank} model-tors={torsText tors}"
+      else if (rank', tors') != (rank, tors) then " model-notrans-differs"
+      else ""
+    | _, _ => " model-trans-panic"
+  | .panic, _ => " model=panic"
+  | .err, _ => " model=err"
+  | _, _ => " model=bad-shape"
+
 def handleHc (args : List String) : Option String := do
   match args with
   | p :: rest =>
@@ -51,7 +71,9 @@ def handleHc (args : List String) : Option String := do
       let (Q, rest) ← parseMat rest
       if !rest.isEmpty then none else
         let a : Answer := ⟨p, d1, d2, rank, tors.toArray, P, Q⟩
-        some s!"chk={(check a).text} {ownText p d1 d2}"
+        let v := check a
+        if v == .shape || v == .precond then some s!"chk={v.text}"
+        else some s!"chk={v.text} {ownText p d1 d2}{if p == 0 then modelText d1 d2 else ""}"
     | _ => none
   | _ => none
 
@@ -66,10 +88,59 @@ def handleShape (args : List String) : Option String := do
     | .err => some "err"
   | _ => none
 
+def vecText (v : Mat) : String := "[" ++ ",".intercalate (v.e.toList.map toString) ++ "]"
+def matText (m : Mat) : String :=
+  s!"{m.r} {m.c}" ++ String.join (m.e.toList.map fun x => " " ++ toString x)
+
+def parsePairs : Nat → List String → Option (List (Mat × Mat) × List String)
+  | 0, l => some ([], l)
+  | k + 1, l => do
+    let (f, l) ← parseMat l
+    let (b, l) ← parseMat l
+    let (ps, l) ← parsePairs k l
+    some ((f, b) :: ps, l)
+
+/-- `tr n0 k split (f_i b_i)* v w`: the first `split` pairs appended to `id(n0)`, the others collected in a
+second `Trans` (`new` + `append`) and merged; then `forward(v)`, `backward(w)`, the composed matrices, `reduce`. -/
+def runTrans (n0 split : Nat) (ps : List (Mat × Mat)) (v w : Mat) : Res String := do
+  let t ← (ps.take split).foldlM (fun t (p : Mat × Mat) => t.append p.1 p.2) (Trans.id n0)
+  let t ← match ps.drop split with
+    | [] => pure t
+    | (f, b) :: rest => do
+      let u ← Trans.new f b
+      let u ← rest.foldlM (fun u (p : Mat × Mat) => u.append p.1 p.2) u
+      t.merge u
+  let fwd ← t.forward v
+  let bwd ← t.backward w
+  let fm ← t.forwardMat
+  let bm ← t.backwardMat
+  let t2 ← t.reduce
+  let fwd2 ← t2.forward v
+  let bwd2 ← t2.backward w
+  let fm2 ← t2.forwardMat
+  let bm2 ← t2.backwardMat
+  let same := fwd2 == fwd && bwd2 == bwd && fm2 == fm && bm2 == bm && t2.src == t.src && t2.tgt == t.tgt
+  pure s!"src={t.src} tgt={t.tgt} fwd={vecText fwd} bwd={vecText bwd} fm={matText fm} bm={matText bm} reduce-same={same}"
+
+def handleTrans (args : List String) : Option String := do
+  match args with
+  | n0 :: k :: split :: rest =>
+    let n0 ← parseNat? n0; let k ← parseNat? k; let split ← parseNat? split
+    let (ps, rest) ← parsePairs k rest
+    let (v, rest) ← parseMat rest
+    let (w, rest) ← parseMat rest
+    if !rest.isEmpty then none else
+      match runTrans n0 split ps v w with
+      | .ok s => some s
+      | .panic => some "panic"
+      | .err => some "err"
+  | _ => none
+
 def handle (t : List String) : String :=
   match t with
   | "hc" :: args => (handleHc args).getD "bad-request"
   | "calcshape" :: args => (handleShape args).getD "bad-request"
+  | "tr" :: args => (handleTrans args).getD "bad-request"
   | _ => "bad-request"
 
 end Yuiv.Drv.C07
